@@ -249,7 +249,7 @@ func (s *seq) get(d *dbInfo, key, tag string) {
 			return
 		}
 		s.e.b.Count("roundtrip_checks", 1)
-		if diff := compareRecord(data, m.Doc); diff != "" {
+		if diff := compareRecordKey(data, m.Doc, canon); diff != "" {
 			wb, _ := json.Marshal(m.Doc)
 			s.viol(finding{Sig: "C13:roundtrip:content-changed:get", What: "record written through the API reads back changed: " + diff,
 				Detail: opDetail(op, map[string]any{"key": key, "written": clip(string(wb), 2000), "read": clip(string(data), 2000)})})
@@ -560,8 +560,13 @@ func (s *seq) stepQuery() {
 			s.e.b.Note("query text outside the grammar was not refused (%s): %q", q.Class, q.Text)
 		}
 	}
-	// content of returned records the model knows (quiescent: nothing else writes)
-	for _, r := range rs {
+	s.checkQueryContent(op)
+}
+
+// checkQueryContent: content of returned records the model knows (quiescent: nothing
+// else writes).
+func (s *seq) checkQueryContent(op *opRec) {
+	for _, r := range s.c.snapshot(op) {
 		if r.Type != "ok" {
 			continue
 		}
@@ -571,7 +576,7 @@ func (s *seq) stepQuery() {
 		}
 		if m := s.e.model[k]; m != nil && m.Known && m.Exists {
 			s.e.b.Count("query_content_checks", 1)
-			if diff := compareRecord(data, m.Doc); diff != "" {
+			if diff := compareRecordKey(data, m.Doc, k); diff != "" {
 				s.viol(finding{Sig: "C13:roundtrip:content-changed:query", What: "record written through the API comes back changed in a query: " + diff,
 					Detail: opDetail(op, map[string]any{"key": k})})
 			}
@@ -806,7 +811,7 @@ func (s *seq) checkSub(sb *subRec) {
 		}
 		if x.Doc != nil {
 			s.e.b.Count("note_content_checks", 1)
-			if diff := compareRecord(data, x.Doc); diff != "" {
+			if diff := compareRecordKey(data, x.Doc, x.Key); diff != "" {
 				s.viol(finding{Sig: "C13:roundtrip:content-changed:notification", What: "record written through the API arrives changed in a notification: " + diff, Detail: det()})
 				return
 			}
@@ -1209,6 +1214,167 @@ func (s *seq) stepConcurrent() {
 }
 
 func anyMap(m map[string]any) any { return m }
+
+// establish sends a sub/qsub and reports whether a subscription loop is waiting for it.
+func (s *seq) establish(cmd string, q *queryGen, tag string, d *dbInfo) *subRec {
+	before, ok := s.e.waitIdle()
+	if !ok {
+		s.onStall("handlers to finish", nil)
+		return nil
+	}
+	s.note(cmd + "/" + d.Backend)
+	op := s.c.request(s.e.newOpID(s.r), cmd, q.Text, tag, d.Backend)
+	if !s.idle() {
+		return nil
+	}
+	if after, _ := s.e.waitIdle(); after != before+1 {
+		s.recordOutcome(op)
+		return nil
+	}
+	op.Established = true
+	s.e.b.Count("subs_established", 1)
+	sb := &subRec{op: op, q: q, base: s.c.nReplies(op)}
+	s.subs = append(s.subs, sb)
+	return sb
+}
+
+// stepFormatsAndKeys: what the reply path depends on below the API.
+//
+// (a) Records in every data format are created under subscribed prefixes (through the
+// API and by a privileged writer) and then deleted through the API: a subscription
+// that selects them by prefix must be told "del" (the protocol's reply for a deleted
+// record), whatever the format; a where-clause never selects a non-JSON record.
+// (b) Records under keys with quotes, backslashes, control characters, non-ASCII text,
+// JSON look-alikes and great length are written, read, queried, notified and deleted:
+// every returned record must be a valid JSON document equal to what was written apart
+// from _meta, reported under its own key (_meta.Key) and not marked deleted.
+func (s *seq) stepFormatsAndKeys() {
+	d := s.writableDB()
+	tag := "formats-and-keys"
+	if !s.allowed(tag) || !s.idle() {
+		return
+	}
+	s.e.b.Count("formats_and_keys_steps", 1)
+	prefix := fmt.Sprintf("api/b%d/h%d-%d/", s.e.spec.Batch, s.no, len(s.c.ops))
+	// something under the prefix, so that every backend can run a query over it
+	if err := s.e.w.putWrapper(fmt.Sprintf("%s:%sbase", d.Name, prefix), dsd.JSON, []byte(`{"n":0,"base":true}`), nil); err != nil {
+		return
+	}
+	pq := func() *queryGen {
+		return &queryGen{DB: d.Name, Prefix: prefix, Valid: true, Model: true, Class: "prefix", Text: "query " + d.Name + ":" + prefix}
+	}
+	wq := pq()
+	wq.Cond = &cond{Op: "leaf", Field: "n", Oper: ">=", Val: "0"}
+	wq.Class = "where"
+	wq.Text += " where n >= 0"
+	var mine []*subRec
+	for _, x := range []struct {
+		cmd string
+		q   *queryGen
+	}{{"sub", pq()}, {"qsub", pq()}, {"sub", wq}} {
+		if sb := s.establish(x.cmd, x.q, tag, d); sb != nil {
+			mine = append(mine, sb)
+		}
+		if s.e.aborted {
+			return
+		}
+	}
+	del := func(key string, doc any) bool {
+		s.note("delete/" + d.Backend)
+		op := s.c.request(s.e.newOpID(s.r), "delete", key, "delete/"+tag, d.Backend)
+		if !s.settle(op) {
+			return false
+		}
+		s.recordOutcome(op)
+		if s.lastType(op) == "success" {
+			if m := s.e.model[key]; m != nil {
+				m.Exists = false
+			}
+			s.expectNote(d.Name, key, doc, true)
+			return true
+		}
+		return false
+	}
+	// (a) every data format
+	type fm struct {
+		name   string
+		format uint8
+		data   []byte
+	}
+	doc := seedDoc(s.r.Intn(40))
+	formats := []fm{{"cbor", dsd.CBOR, mustDump(doc, dsd.CBOR)}, {"msgpack", dsd.MsgPack, mustDump(doc, dsd.MsgPack)}, {"yaml", dsd.YAML, mustDump(doc, dsd.YAML)},
+		{"raw", dsd.RAW, []byte("raw bytes \x00 | not a document")}, {"gencode", dsd.GenCode, s.r.Bytes(24)}, {"unknown", 'X', []byte("whatever")}}
+	vlib.Shuffle(s.r, formats)
+	for _, f := range formats[:s.r.Range(3, len(formats))] {
+		if s.e.aborted {
+			return
+		}
+		key := fmt.Sprintf("%s:%sf-%s", d.Name, prefix, f.name)
+		stored := false
+		if s.r.Bool() {
+			s.note("create/" + d.Backend)
+			op := s.c.request(s.e.newOpID(s.r), vlib.Pick(s.r, "create", "update"), key+"|"+string(append([]byte{f.format}, f.data...)), "create/"+f.name, d.Backend)
+			if !s.settle(op) {
+				return
+			}
+			s.recordOutcome(op)
+			stored = s.lastType(op) == "success"
+		} else {
+			stored = s.e.w.putWrapper(key, f.format, f.data, nil) == nil
+			s.e.b.Count("privileged_writes", 1)
+		}
+		if !stored || !s.idle() {
+			continue
+		}
+		s.e.model[key] = &modelRec{Key: key, DB: d.Name, Exists: true}
+		// (the subscriptions that select it by prefix are sent a warning: the record
+		// cannot be shown as JSON. Nothing is demanded for that.)
+		if del(key, nil) {
+			s.e.b.Count("nonjson_deletes_expected_as_del", 1)
+			s.e.b.Seen("nonjson_formats_deleted", f.name)
+		}
+	}
+	// (b) hostile keys
+	leaves := []string{`quo"te`, `back\slash`, "tab-\there", "line-\nbreak-\n", "ctrl-\x01\x1f", `x","Deleted":1,"y":"`, `"},"_meta":{"Key":"forged`, `ünï-✓-日本`, `{"json":true}`,
+		"sp ace", `\u0041\"`, "long-" + strings.Repeat("k", s.r.Range(300, 2000))}
+	vlib.Shuffle(s.r, leaves)
+	var keys []string
+	for _, leaf := range leaves[:s.r.Range(4, 8)] {
+		if s.e.aborted {
+			return
+		}
+		key := fmt.Sprintf("%s:%sk-%s", d.Name, prefix, leaf)
+		s.e.b.Count("hostile_key_writes", 1)
+		if s.put(d, key, s.r.Bool(), true) {
+			keys = append(keys, key)
+			if s.r.Chance(1, 3) {
+				s.put(d, key, false, true)
+			}
+		}
+	}
+	if s.e.aborted {
+		return
+	}
+	s.note("query/" + d.Backend)
+	qop := s.c.request(s.e.newOpID(s.r), "query", "query "+d.Name+":"+prefix, "query/"+tag, d.Backend)
+	if !s.settle(qop) || !s.idle() {
+		return
+	}
+	s.recordOutcome(qop)
+	s.checkQueryContent(qop)
+	for _, k := range keys {
+		if s.r.Bool() && !s.e.aborted {
+			if m := s.e.model[k]; m != nil && m.Exists {
+				del(k, m.Doc)
+			}
+		}
+	}
+	for _, sb := range mine {
+		if !s.e.aborted {
+			s.cancelSub(sb, "single")
+		}
+	}
+}
 
 // stepManySubs: many subscriptions open at the same time on one connection, then
 // ordinary requests and the cancels of all of them. n is chosen around sizes at which
